@@ -41,9 +41,10 @@ func (c *Client) handshake(ctx context.Context) error {
 				return errors.Wrap(err, "close")
 			}
 
-			// Returning nil, because context error is already propagated by
-			// error group.
-			return nil
+			// Connection is closed now, so handshake should fail even if its
+			// goroutine is able to finish without touching the connection
+			// (e.g. server hello is already buffered).
+			return ctx.Err()
 		}
 	})
 	wg.Go(func() error {
